@@ -263,6 +263,25 @@ func c02Ladder(c *fw.Ctx, run func(stream []byte, want []resp.Value, bounds map[
 				}
 			}
 			first := resp.Value{Kind: resp.Bulk, Data: body}
+			if shape == 1 && L > 0 && L <= 70000 {
+				// the same size as a status line too (no CR/LF in 'x' content)
+				line := []resp.Value{{Kind: resp.Status, Data: body}, resp.S("OK"), resp.I(42)}
+				var ls []byte
+				lb := map[int]bool{0: true}
+				for _, v := range line {
+					ls = append(ls, v.Bytes()...)
+					lb[len(ls)] = true
+				}
+				run(ls, line, lb, nil, 0, "ladder-line-whole")
+				for _, k := range []int{1, 2, L, L + 1, L + 2, L + 3, L + 4} {
+					if k > 0 && k < len(ls) {
+						run(ls, line, lb, []int{k}, 0, "ladder-line-2way")
+					}
+				}
+				for _, st := range []int{1, 3, 4096} {
+					run(ls, line, lb, nil, st, "ladder-line-stride")
+				}
+			}
 			if shape == 2 {
 				first = resp.A(resp.B("SET"), resp.Value{Kind: resp.Bulk, Data: body}, resp.I(7))
 			}
